@@ -265,7 +265,9 @@ FsSnap(o0, ev) ==
 
 \* ------------------------------------------------------------------ callbacks
 CbBegin(o0, ev) ==
-    LET o == Late(o0, "callback")
+    \* (a callback that runs inside the user's own concurrent cancel() call,
+    \*  on the user's thread, is not an activity of the manager)
+    LET o == IF ev.user THEN o0 ELSE Late(o0, "callback")
         i == ev.x + 1 IN
     IF ~Known(o, ev.x) THEN o ELSE
     LET xr == o.x[i] IN
